@@ -88,6 +88,16 @@ class Closure:
         return "<lambda>"
 
 
+class BoundMethod:
+    """A method of a repo class bound to a class-typed abstract object."""
+
+    def __init__(self, obj, func):
+        self.obj, self.func = obj, func
+
+    def __repr__(self):
+        return "<bound %s of %r>" % (self.func.name, self.obj)
+
+
 class AttrGetter:
     """operator.attrgetter('name') as a key function."""
 
@@ -101,8 +111,9 @@ class _Return(Exception):
 
 
 class _Raise(Exception):
-    def __init__(self, what):
+    def __init__(self, what, value=None):
         self.what = what
+        self.value = value      # the abstract exception object, when the code binds / re-raises it
 
 
 class _Continue(Exception):
@@ -266,6 +277,13 @@ class Interp:
             if st.exc is not None:
                 e = st.exc.func if isinstance(st.exc, ast.Call) else st.exc
                 what = norm(e)
+                if not isinstance(st.exc, ast.Call) and not (isinstance(e, ast.Name) and e.id[:1].isupper()):
+                    # `raise <expression>`: an exception object held in a variable / attribute
+                    v = self.eval(st.exc, env, f)
+                    if isinstance(v, Obj) and "__exc__" in v.attrs:
+                        raise _Raise(v.attrs["__exc__"], v)
+                    if v is TOP:
+                        raise Unsupported("raise of an unknown value `%s`" % what)
             raise _Raise(what)
         elif isinstance(st, ast.Continue):
             raise _Continue()
@@ -304,6 +322,10 @@ class Interp:
                     for h in st.handlers:
                         names = [] if h.type is None else ([norm(x) for x in h.type.elts] if isinstance(h.type, ast.Tuple) else [norm(h.type)])
                         if h.type is None or r.what in names or "Exception" in names or "BaseException" in names:
+                            if h.name:
+                                if r.value is None:
+                                    r.value = Obj("exception:" + str(r.what), __exc__=r.what)
+                                env[h.name] = r.value
                             try:
                                 self.exec_block(h.body, env, f)
                             except _Raise as r2:
@@ -377,6 +399,11 @@ class Interp:
         elif isinstance(target, ast.Attribute):
             base = self.eval(target.value, env, f)
             if isinstance(base, Obj):
+                if "__cls__" in base.attrs and target.attr not in base.attrs:
+                    st_ = self.hier.property_setter(base.attrs["__cls__"], target.attr)
+                    if st_ is not None:
+                        self.invoke(st_, [v], {}, base)
+                        return
                 base.attrs[target.attr] = v
             else:
                 raise Unsupported("attribute store on %r" % (base,))
@@ -493,6 +520,13 @@ class Interp:
         if isinstance(e, ast.Attribute):
             base = self.eval(e.value, env, f)
             if isinstance(base, Obj):
+                if e.attr not in base.attrs and "__cls__" in base.attrs:
+                    # an object of a repo class: properties are evaluated, methods become bound references
+                    g = self.hier.resolve(base.attrs["__cls__"], e.attr)
+                    if g is not None and g.has_decorator("property"):
+                        return self.invoke(g, [], {}, base)
+                    if g is not None:
+                        return BoundMethod(base, g)
                 return base.attrs.get(e.attr, TOP)
             if isinstance(base, Record):
                 return base.kwargs.get(e.attr, TOP)
@@ -811,6 +845,10 @@ class Interp:
                     raise Unsupported("call of %s.%s(), which the model neither knows nor interprets" % (norm(recv), m))
                 return None  # not inlined: treated as a passing no-op
             base = self.eval(recv, env, f)
+            if isinstance(base, Obj) and "__cls__" in base.attrs and m not in base.attrs:
+                tgt = self.hier.resolve(base.attrs["__cls__"], m)
+                if tgt is not None and not tgt.has_decorator("property"):
+                    return self.invoke(tgt, args, kwargs, base)
             if isinstance(base, set) and m in ("add", "discard") and args and isinstance(args[0], (str, int)):
                 getattr(base, m)(args[0])
                 return None
